@@ -1,5 +1,6 @@
 import NriModel.Lemmas.DispatchMask
 import NriModel.Lemmas.DispatchHistory
+import NriModel.Lemmas.DispatchFine
 /-!
 Property C06 — subscribed plugins get each event once, in index order, in one common order.
 
@@ -193,5 +194,30 @@ example : ∃ s : LState Nat Nat Unit,
     run? (fun rid _ => ⟨rid, fun a _ r => .ok (a + r), id⟩) 5 LState.init
       [.activate pA [pA], .inv 7 100 4, .inv 8 200 4, .run 8 [okCall], .run 7 [okCall], .ret 7, .ret 8] = some s ∧
     s.rets.map (fun x => (x.1, x.2.1)) = [(8, 200), (7, 100)] := ⟨_, rfl, by decide⟩
+
+/-! ### what the mutex buys (fine-grained view: single plugin calls, explicit lock) -/
+
+/-- With `Lock()`/`Unlock()` around the loop, in every reachable state at most ONE caller is
+    inside its loop, and it is the holder of the mutex: no plugin call of another request can
+    fall between two calls of a request — a relay is atomic, which is what the interleaving model
+    (`step?`, event `run`) takes as its step. -/
+theorem mutex_excludes (ps : List Plugin) (h : List FEv) (s : FState)
+    (hr : frun? true (FState.start ps) h = some s) :
+    s.walkers.length ≤ 1 ∧ (∀ w ∈ s.walkers, s.lock = some w.tid) ∧ (s.lock = none → s.walkers = []) := by
+  obtain ⟨h1, h2, h3⟩ := frun_excl h _ _ (start_excl ps) hr
+  refine ⟨h3, ?_, h1⟩
+  intro w hw
+  cases hl : s.lock with
+  | none => rw [h1 hl] at hw; cases hw
+  | some t => rw [h2 t hl w hw]
+
+/-- Without them the same two requests can reach two plugins in opposite orders (plugin 0 sees
+    request 1 then 2, plugin 1 sees 2 then 1: no common order) — a schedule the guarded model
+    refuses. This is the history shape the concurrent stream of the check looks for. -/
+theorem no_mutex_interleaves :
+    ∃ h s, frun? false (FState.start [pB, pA]) h = some s ∧
+      s.seenBy pB.id = [1, 2] ∧ s.seenBy pA.id = [2, 1] ∧
+      frun? true (FState.start [pB, pA]) h = none :=
+  ⟨[.enter 7 1, .call 7, .enter 8 2, .call 8, .call 8, .leave 8, .call 7, .leave 7], _, rfl, by decide, by decide, by decide⟩
 
 end Nri.Props.C06
